@@ -76,8 +76,8 @@ class Findings:
                     continue
                 m = re.match(r"finding:\s+property=(\S+)\s+id=(\S+)\s*(.*?)\s*::\s*(.*)$", line)
                 if m:
-                    self.open[m.group(2)] = {"property": m.group(1), "attrs": m.group(3),
-                                             "text": m.group(4)}
+                    self.open[(m.group(1), m.group(2))] = {"property": m.group(1), "attrs": m.group(3),
+                                                            "text": m.group(4)}
                     continue
                 m = re.match(r"fixed:\s+property=(\S+)\s+(\S+)\s+(.*)$", line)
                 if m:
@@ -85,11 +85,10 @@ class Findings:
                                        "text": m.group(3)})
 
     def is_open(self, prop, fid):
-        f = self.open.get(fid)
-        return bool(f and f["property"] == prop)
+        return (prop, fid) in self.open
 
     def for_property(self, prop):
-        return {k: v for k, v in self.open.items() if v["property"] == prop}
+        return {k[1]: v for k, v in self.open.items() if k[0] == prop}
 
 
 # --------------------------------------------------------------------------------------
